@@ -247,7 +247,9 @@ where
     }
 
     fn call(&mut self, req: Req) -> Self::Future {
-        let mut service = self.inner.clone();
+        // Take the instance that `poll_ready` was called on and leave a fresh clone behind
+        let clone = self.inner.clone();
+        let mut service = std::mem::replace(&mut self.inner, clone);
         let config = Arc::clone(&self.config);
 
         // Extract max_attempts from request before moving it
@@ -257,6 +259,10 @@ where
             let mut attempt = 0;
 
             loop {
+                if attempt > 0 {
+                    // The previous call consumed this instance's readiness
+                    std::future::poll_fn(|cx| service.poll_ready(cx)).await?;
+                }
                 let result = service.call(req.clone()).await;
 
                 match result {
